@@ -29,7 +29,7 @@ def main():
             t = time.time()
             ev = "/verif/evidence/%s.json" % c
             keep = open(ev).read() if os.path.exists(ev) else None
-            r = sh("cd /verif && VERIF_REPO=%s timeout 2700 ./check %s --tier %s" % (wt0, c, tier))
+            r = sh("cd %s && VERIF_REPO=%s timeout 2700 ./check %s --tier %s" % (os.environ.get("VERIF_DIR", "/verif"), wt0, c, tier))
             if keep is not None:
                 open(ev, "w").write(keep)
             lines = [l for l in r.stdout.splitlines() if l.startswith(("VIOLATION", "HARNESS-ERROR", "KNOWN"))]
